@@ -28,8 +28,7 @@ Gallina transcription in coq/Model/Sites.v (`model=`); Properties/C09.v proves p
 every entry of the generated list, and an unknown model name maps to the identity function on lists, which
 is not permutation invariant — so a new order-relevant site cannot pass silently either.
 
-The source root can be overridden with VERIF_SRC_OVERRIDE (used only by the mutation self-tests of
-prop_C09.py, on a private copy under build/mut/src).
+The source root is tables.SRC (VERIF_REPO_ROOT, default /repo).
 """
 from __future__ import annotations
 
@@ -45,8 +44,8 @@ OUT_NAME = "T_C09.v"
 
 
 def src_root() -> Path:
-    o = os.environ.get("VERIF_SRC_OVERRIDE")
-    return Path(o) / "pyopenapi_gen" if o else Path("/repo/src/pyopenapi_gen")
+    from tables import SRC
+    return SRC
 
 
 # ---------------------------------------------------------------------------------------------------
@@ -589,7 +588,7 @@ def _cmt(s: str) -> str:
 
 def render() -> str:
     sites, stats = scan()
-    lines = ["(* GENERATED by harness/tables_C09.py from /repo/src/pyopenapi_gen — do not edit *)",
+    lines = ["(* GENERATED by harness/tables_C09.py from <repo>/src/pyopenapi_gen - do not edit *)",
              "From Coq Require Import List NArith.", "Import ListNotations.", "Open Scope N_scope.", "",
              "(* class: 0 sorted_wrapped | 1 order_irrelevant | 2 order_relevant | 3 dead_value *)",
              "Definition site := (list N * N * list N * N * list N)%type.  (* file, line, function, class, model *)",
